@@ -1,0 +1,12 @@
+/*
+ * Verification facade, compiled only with the cargo feature `verif`.  Add-only: lets an
+ * out-of-crate harness drive crate-private components (codec, validation, alias resolvers,
+ * protocol engine, client implementation) through a neutral text representation.
+ * Nothing in the crate depends on this module.
+ */
+
+pub mod text;
+pub mod codec;
+pub mod engine;
+pub mod misc;
+pub mod client;
